@@ -302,6 +302,12 @@ def _store_array(
         # treat a region as an offset within the target store
         shape = target.shape
         chunks = target.chunks
+        if any(not isinstance(sl, slice) for sl in region):
+            raise NotImplementedError(f"Region {region} must be a tuple of slices")
+        if any(sl.step not in (None, 1) for sl in region):
+            raise NotImplementedError(f"Region {region} with a step is not supported")
+        # resolve negative and open-ended bounds against the target shape
+        region = tuple(slice(*sl.indices(n)[:2]) for sl, n in zip(region, shape))
         for i, (sl, cs) in enumerate(zip(region, chunks)):
             if (sl.start is not None and sl.start % cs != 0) or (
                 sl.stop is not None and sl.stop % cs != 0 and sl.stop != shape[i]
